@@ -660,17 +660,68 @@ def guarded_map(fn: t.Callable[[t.Any], t.Any], items: t.Sequence[t.Any], per_it
     return results
 
 
+def confirm_timeout(fn: t.Callable[[t.Any], t.Any], item: t.Any, cpu_s: int = 20, wall_s: float = 900.0) -> t.Tuple[bool, t.Any]:
+    """An item that exceeded the wall-clock limit of guarded_map is evaluated once more, alone, in a fresh process whose
+    budget is CPU time (RLIMIT_CPU): (True, result) if it returns, (False, None) if it uses up the CPU budget.  Wall-clock
+    limits alone would turn a loaded machine into verdicts (observed: a 28-character filter "did not return within 4 s"
+    while three model-checking runs shared the machine)."""
+    import multiprocessing as mp
+
+    ctx = mp.get_context("fork")
+    r_conn, w_conn = ctx.Pipe(duplex=False)
+
+    def child() -> None:
+        import resource
+
+        resource.setrlimit(resource.RLIMIT_CPU, (cpu_s, cpu_s + 2))
+        try:
+            res = fn(item)
+        except BaseException as ex:  # noqa: BLE001
+            res = ("__exc__", type(ex).__name__, str(ex)[:200])
+        w_conn.send(res)
+        w_conn.close()
+
+    pr = ctx.Process(target=child, daemon=True)
+    pr.start()
+    w_conn.close()
+    got: t.Any = None
+    have = False
+    if r_conn.poll(wall_s):
+        try:
+            got = r_conn.recv()
+            have = True
+        except (EOFError, OSError):
+            have = False
+    pr.join(5)
+    if pr.is_alive():
+        pr.kill()
+        pr.join()
+        if not have:
+            raise MachineryError(f"re-evaluation of one item used less than {cpu_s} s of CPU in {wall_s} s of wall time: the machine is overloaded")
+    return (True, got) if have else (False, None)
+
+
 def guarded_events(rep: "Report", fn: t.Callable[[t.Any], t.Any], items: t.Sequence[t.Any], what: str, per_item: float = 4.0, also_prop: str = "") -> t.List[t.Any]:
-    """Events fn(item) for a trace specification.  A call that does not return within per_item seconds is not an event
-    of this property's trace; it is recorded as a violation attributed to C18 (parsing cost)."""
+    """Events fn(item) for a trace specification.  A call that does not return within per_item seconds of wall time is
+    evaluated again, alone, under a CPU-time budget (confirm_timeout); if it uses that up as well it is not an event of
+    this property's trace but a violation attributed to C18 (parsing cost) and, where given, to also_prop."""
     out = []
+    retried = 0
     for item, r in zip(items, guarded_map(fn, items, per_item=per_item)):
+        confirmed = False
+        if isinstance(r, TimedOut) and retried < 6:
+            retried += 1
+            done, res = confirm_timeout(fn, item)
+            if done:
+                r = res
+            else:
+                confirmed = True
         if isinstance(r, TimedOut) and r.seconds == -2.0:
             rep.violation(f"evaluation-abandoned/{what}", f"too many calls of {what} did not return in time; the remaining inputs were not evaluated", {"first_unevaluated": str(item)[:500]}, prop="C18")
         elif isinstance(r, TimedOut):
-            rep.violation(f"call-did-not-return/{what}", f"{what} did not return within {per_item} s for {str(item)[:200]!r}", {"item": str(item)[:2000]}, prop="C18")
-            if also_prop:  # e.g. C15: a parser that does not return is not total
-                rep.violation(f"call-did-not-return/{what}", f"{what} did not return within {per_item} s for {str(item)[:200]!r}", {"item": str(item)[:2000]}, prop=also_prop)
+            rep.violation(f"call-did-not-return/{what}", f"{what} did not return within {per_item} s of wall time, nor within 20 s of CPU time when evaluated again alone, for {str(item)[:200]!r}", {"item": str(item)[:2000]}, prop="C18")
+            if also_prop and confirmed:  # e.g. C15: a parser that does not return is not total
+                rep.violation(f"call-did-not-return/{what}", f"{what} did not return (20 s of CPU time) for {str(item)[:200]!r}", {"item": str(item)[:2000]}, prop=also_prop)
         elif isinstance(r, tuple) and len(r) == 3 and r[0] == "__exc__":
             raise MachineryError(f"driver failed on {str(item)[:100]!r}: {r[1]}: {r[2]}")
         else:
